@@ -271,6 +271,11 @@ type kubeStep struct {
 	Manifest      []mObj `json:"manifest"`
 	Drift         []any  `json:"drift"`
 	Reject        string `json:"reject,omitempty"` // the API server rejects the creation of this object
+	CleanupOnFail bool   `json:"cleanupOnFail"`
+	Atomic        bool   `json:"atomic"`
+	// targetsOnly: judge only "the manifest's resources are there with their fields" (the composite of a
+	// failed upgrade and its automatic rollback: what is kept or removed in between is the model's business)
+	targetsOnly bool
 }
 
 // kubeRev: the harness's own record of the revisions the operations should have produced
@@ -389,6 +394,9 @@ func kubeHistory(m *Model, rep *Report, r *Rng, seed uint64, idx int) {
 			}
 		}
 		st.TakeOwnership, st.Force, st.DryRun = r.Chance(20), r.Chance(15), r.Chance(8)
+		if st.Kind == "upgrade" {
+			st.CleanupOnFail, st.Atomic = r.Chance(25), r.Chance(25)
+		}
 		if st.Kind == "install" || st.Kind == "upgrade" {
 			st.Manifest = genManifest(r)
 		}
@@ -431,6 +439,7 @@ func kubeHistory(m *Model, rep *Report, r *Rng, seed uint64, idx int) {
 				up := action.NewUpgrade(cfg)
 				up.Namespace, up.DisableOpenAPIValidation = "default", true
 				up.TakeOwnership, up.Force, up.DryRun = st.TakeOwnership, st.Force, st.DryRun
+				up.CleanupOnFail, up.Atomic = st.CleanupOnFail, st.Atomic
 				_, err = up.Run("app", chartOf(st.Manifest, version), map[string]any{})
 			case "rollback":
 				rb := action.NewRollback(cfg)
@@ -453,7 +462,22 @@ func kubeHistory(m *Model, rep *Report, r *Rng, seed uint64, idx int) {
 		muts := w.api.mutations(logFrom)
 		cs := map[string]any{"pre": pre, "history": hist}
 		// model
-		q := map[string]any{"op": "clusterOp", "kind": st.Kind, "rel": "app", "ns": "default", "takeOwnership": st.TakeOwnership, "force": st.Force, "dryRun": st.DryRun, "store": objsJSON(before)}
+		q := map[string]any{"op": "clusterOp", "kind": st.Kind, "rel": "app", "ns": "default", "takeOwnership": st.TakeOwnership, "force": st.Force, "dryRun": st.DryRun, "store": objsJSON(before),
+			"cleanupOnFail": st.CleanupOnFail}
+		// atomic: the automatic rollback goes to the newest revision marked superseded or deployed
+		var rollbackTo []mObj
+		haveRollback := false
+		if st.Atomic && st.Kind == "upgrade" {
+			for i := len(revs) - 1; i >= 0; i-- {
+				if revs[i].Status == "deployed" || revs[i].Status == "superseded" {
+					rollbackTo, haveRollback = revs[i].Manifest, true
+					break
+				}
+			}
+			if haveRollback {
+				q["rollbackTo"] = objsJSON(rollbackTo)
+			}
+		}
 		if st.Reject != "" {
 			q["reject"] = []any{st.Reject}
 		}
@@ -584,6 +608,23 @@ func kubeHistory(m *Model, rep *Report, r *Rng, seed uint64, idx int) {
 			revs = append(revs, kubeRev{Manifest: target, Status: "failed"})
 			installed = true
 			rep.H("failed-revision:" + st.Kind)
+			if st.Kind == "upgrade" && st.Atomic {
+				// the automatic rollback to the deployed manifest: one more revision, deployed if it went
+				// through (it did when the error says so), failed otherwise
+				rolledBack := strings.Contains(err.Error(), "has been rolled back")
+				if rolledBack {
+					supersede()
+					revs = append(revs, kubeRev{Manifest: rollbackTo, Status: "deployed"})
+				} else if strings.Contains(err.Error(), "an error occurred while rolling back") {
+					revs[len(revs)-1].Status = "superseded"
+					revs = append(revs, kubeRev{Manifest: rollbackTo, Status: "failed"})
+				}
+				rep.H(fmt.Sprintf("atomic-rollback:%v", rolledBack))
+				// C03, cluster side: after the rollback the previous manifest is in force again
+				if rolledBack {
+					kubeSuccessMonitors(rep, kubeStep{Kind: "rollback", Force: st.Force, targetsOnly: true}, before, after, target, rollbackTo, "", cs, seed, idx)
+				}
+			}
 		}
 		rep.Traces++
 	}
@@ -628,7 +669,7 @@ func kubeSuccessMonitors(rep *Report, st kubeStep, before, after, deployed, targ
 				rep.Issue(Issue{Kind: "monitor", Fingerprint: "C07:not-stamped", What: t.Key + " lacks the ownership label/annotations after a successful " + st.Kind, Case: cs, Seed: seed, Index: idx})
 			}
 		}
-		if st.Kind != "install" {
+		if st.Kind != "install" && !st.targetsOnly {
 			for _, o := range deployed {
 				if find(target, o.Key) != nil {
 					continue
